@@ -58,10 +58,23 @@ def member_table(node):
     return [(m.name, m.byte_size, m.alignment, m.padding) for m in node.members]
 
 
+def all_nodes(lst):
+    """Model nodes of a file and, through Include nodes, of the files it includes."""
+    import prophyc.model as M
+    out = []
+    for n in lst:
+        if isinstance(n, M.Include):
+            out.extend(all_nodes(n.members))
+        else:
+            out.append(n)
+    return out
+
+
 def run_pair(acc, wd, idx, sch, rng):
     import prophyc.model as M
     w = W.Wire(sch)
-    xml, patch, forms = S.to_isar_variants(sch, rng)
+    inc = {} if rng.random() < 0.4 else None
+    xml, patch, forms = S.to_isar_variants(sch, rng, split=inc)
     text = sch.to_prophy()
     acc.ev()
     for f in forms:
@@ -69,7 +82,7 @@ def run_pair(acc, wd, idx, sch, rng):
 
     def witness(**kw):
         wit = {'schema_json': sch.to_json(), 'prophy': text[:5000], 'isar': xml[:6000], 'patch': patch,
-               'forms': sorted(forms)}
+               'forms': sorted(forms), 'included': inc}
         wit.update(kw)
         return wit
     try:
@@ -78,14 +91,15 @@ def run_pair(acc, wd, idx, sch, rng):
         acc.prereq({'stage': 'prophy ' + e.stage, 'error': str(e)[:300]})
         return
     try:
-        mod_i, nodes_i = pyrt.compile_python(xml, wd, name='sch', fmt='isar', patch=patch)
+        mod_i, nodes_i = pyrt.compile_python(xml, wd, name='sch', fmt='isar', patch=patch, files=inc or None,
+                                             files_are_inputs=True)
     except pyrt.CompileFailed as e:
         acc.violation(PROP, 'isar-rendering-does-not-compile:%s:%s' % (e.stage, type(e.exc).__name__),
                       witness(error=str(e)[:600]))
         return
     acc.count('pairs_compiled')
     np_ = {n.name: n for n in nodes_p['sch'] if isinstance(n, (M.Struct, M.Union))}
-    ni = {n.name: n for n in nodes_i['sch'] if isinstance(n, (M.Struct, M.Union))}
+    ni = {n.name: n for n in all_nodes(nodes_i['sch']) if isinstance(n, (M.Struct, M.Union))}
     if set(np_) != set(ni):
         acc.violation(PROP, 'type-sets-differ', witness(prophy=sorted(np_), isar=sorted(ni)))
         return
@@ -132,8 +146,10 @@ def run_pair(acc, wd, idx, sch, rng):
     if structs and rng.random() < 0.5:
         ghost = (patch or '') + 'NoSuchMessage type a u8\nNoSuchMessage frobnicate\nNoSuchMessage remove x\n'
         try:
-            mod_g, nodes_g = pyrt.compile_python(xml, wd, name='sch', fmt='isar', patch=ghost)
-            tg = {n.name: (n.byte_size, n.alignment, n.kind) for n in nodes_g['sch'] if isinstance(n, (M.Struct, M.Union))}
+            mod_g, nodes_g = pyrt.compile_python(xml, wd, name='sch', fmt='isar', patch=ghost, files=inc or None,
+                                                 files_are_inputs=True)
+            tg = {n.name: (n.byte_size, n.alignment, n.kind) for n in all_nodes(nodes_g['sch'])
+                  if isinstance(n, (M.Struct, M.Union))}
             ti = {n: (x.byte_size, x.alignment, x.kind) for n, x in ni.items()}
             if tg != ti:
                 acc.violation(PROP, 'rule-for-absent-message-changes-output', witness(ghost_patch=ghost))
